@@ -292,18 +292,41 @@ func cmdCheck(args []string) int {
 		}(i, o)
 	}
 	wg.Wait()
-	// retry inconclusive ones alone with a larger budget (load-induced flakiness)
-	for _, r := range results {
-		if r.obl.Expect == "unsat" && r.Status != "unsat" && r.Status != "sat" {
-			if _, und := cfg.Undecided[r.Name]; und {
-				continue
-			}
-			rr, _ := Solve(r.obl, SolverCfg{Timeout: 3 * timeout, WorkDir: work, Seed: seed + 1})
-			r.Tried = append(r.Tried, rr.Tried...)
-			if rr.Status == "unsat" || rr.Status == "sat" {
-				r.Status, r.Solver, r.Seconds, r.output = rr.Status, rr.Solver, r.Seconds+rr.Seconds, rr.Output
+	// second pass: portfolio (all solvers, several seeds, both slices) for what the
+	// quick first attempt did not settle; two obligations at a time
+	{
+		pfT := 60 * time.Second
+		if *tier == "thorough" {
+			pfT = 240 * time.Second
+		}
+		var pend []*OblResult
+		for _, r := range results {
+			if r.obl.Expect == "unsat" && r.Status != "unsat" && r.Status != "sat" {
+				if _, und := cfg.Undecided[r.Name]; und {
+					continue
+				}
+				pend = append(pend, r)
 			}
 		}
+		var wg2 sync.WaitGroup
+		sem2 := make(chan struct{}, 2)
+		for _, r := range pend {
+			wg2.Add(1)
+			go func(r *OblResult) {
+				defer wg2.Done()
+				sem2 <- struct{}{}
+				defer func() { <-sem2 }()
+				rr, file := Portfolio(r.obl, SolverCfg{Timeout: pfT, WorkDir: work, Seed: seed})
+				r.Tried = append(r.Tried, rr.Tried...)
+				r.Seconds += rr.Seconds
+				if rr.Status == "unsat" || rr.Status == "sat" {
+					r.Status, r.Solver, r.output, r.file = rr.Status, rr.Solver, rr.Output, file
+				} else {
+					r.Status = rr.Status
+				}
+			}(r)
+		}
+		wg2.Wait()
 	}
 	known := loadKnown()
 	nObl, nDis, nViol := 0, 0, 0
